@@ -136,23 +136,35 @@ def structural(spec, seq, types, where, depth=0):
 
 def known_feature(spec):
     """first construct in the spec whose export has a recorded defect (None if there is none)"""
+    for f in known_features(spec):
+        return f
+    return None
+
+
+def known_features(spec):
     for s_ in G.walk(spec):
         k = s_[0]
         if k == "prefixed" and s_[3]:
-            return "prefixed-includelength-ignored"
+            yield "prefixed-includelength-ignored"
         if k == "cstr" and G.ENC_UNIT.get(s_[1], 1) > 1:
-            return "cstring-multibyte-terminator"
+            yield "cstring-multibyte-terminator"
         if k == "enum":
-            return "enum-without-integer-type"
+            yield "enum-without-integer-type"
         if k == "flagsenum":
-            return "flagsenum-bit-order"
+            yield "flagsenum-bit-order"
         if k == "nullterm":
-            return "nullterminated-size-eos"
-        if k == "pointer":
-            return "pointer-instance"
+            yield "nullterminated-size-eos"
+        if k == "pointer" and G.is_expr(s_[1]):
+            yield "pointer-instance"        # (the recorded defect concerns offsets given by expressions; constant offsets export fine)
         if k == "ite":
-            return "ifthenelse-condition-scope"
-    return None
+            yield "ifthenelse-condition-scope"
+        if k == "if":
+            sub = s_[2]
+            while sub[0] in ("docs", "hex", "hexdump", "rebuild", "default"):
+                sub = sub[1]
+            if sub[0] == "if":
+                # If is IfThenElse(cond, x, Pass): a conditional guarded by another one is exported through the same helper type
+                yield "ifthenelse-condition-scope"
 
 
 def oracle_factory(ctx):
@@ -170,6 +182,12 @@ def oracle_factory(ctx):
                 f2 = inner(case, enum_base="u1")
                 if f2 is not None and f2.bucket == "C19/enum/label-table":
                     return f2
+            if set(known_features(case[0])) == {"ifthenelse-condition-scope"}:
+                # the recorded defect is a name out of scope in the helper type. Grant helper types the names of the sequence
+                # they are used in and look at the rest: which conditions the schema states, and the layout they give
+                f2 = inner(case, scope_fallback=True)
+                if f2 is not None:
+                    return Failure(f2.bucket.replace("C19/", "C19/scope-granted/", 1), f2.detail)
             if feat is not None:
                 # specs containing a construct with a recorded exporter defect only occur in the `known` campaign (tiny specs);
                 # whatever fails there is attributed to that construct
@@ -179,7 +197,7 @@ def oracle_factory(ctx):
 
 
 def _oracle_factory(ctx):
-    def oracle(case, enum_base=None):
+    def oracle(case, enum_base=None, scope_fallback=False):
         spec, params, value = case
         con = G.realise(spec)
         o, doc = export(con)
@@ -208,7 +226,7 @@ def _oracle_factory(ctx):
         except (R.Reject, R.ForeignError):
             ctx.tally("semantic/value-outside-domain")
             return None
-        sch = K.Schema(doc, enum_base=enum_base)
+        sch = K.Schema(doc, enum_base=enum_base, scope_fallback=scope_fallback)
         try:
             fields, kend = sch.parse(data)
         except K.Uninterpretable as e:
@@ -327,15 +345,20 @@ def exportable(draw, depth=2, tail=True, allow_known=False):
         return "%s%d" % (p, names[0])
 
     strs = []
+    only = draw(st.sampled_from([None, "enum", "ite", "if", "if"])) if allow_known else None
 
     def leaf(ints):
         if strs and draw(st.integers(0, 5)) == 0:
             # a condition on a text member compared with a string literal (the literal must stay a literal in the schema)
             return ["if", ["bin", draw(st.sampled_from(["==", "!="])), ["this", [draw(st.sampled_from(strs))], "attr"], ["const", draw(st.sampled_from(["a", "ab", "", "zz"]))]], B1]
         opts = ["int", "int", "float", "varint", "bytes", "bytesref", "pstr", "pascal", "cstr", "flag", "const", "constint", "constframed", "padding", "padded", "rebuild", "default", "hex",
-                "array", "arrayref", "parray", "prefixed", "fixedsized", "runtil", "docs", "pass", "if", "bitstruct"]
+                "array", "arrayref", "parray", "prefixed", "fixedsized", "runtil", "docs", "pass", "if", "bitstruct", "pointer"]
         if allow_known:
-            opts = ["int", "bytes", "enum", "flagsenum", "nullterm", "pointer", "cstr16", "prefixed-incl", "ite"]
+            opts = ["int", "bytes", "enum", "flagsenum", "nullterm", "pointer", "cstr16", "prefixed-incl", "ite", "if"]
+            if only is not None:
+                # one construct with a recorded defect among plain members: the second passes (which grant what the recorded
+                # defect leaves out and look at the rest) apply to such specs only
+                opts = ["int", "int", "bytes", only, only]
         if not ints:
             opts = [o for o in opts if o not in ("bytesref", "arrayref", "if", "ite")] or ["int"]
         o = draw(st.sampled_from(opts))
@@ -405,7 +428,16 @@ def exportable(draw, depth=2, tail=True, allow_known=False):
         if o == "pass":
             return ["pass"]
         if o == "if":
-            return ["if", ["bin", draw(st.sampled_from([">", "==", "!="])), ["this", [draw(st.sampled_from(ints))], "attr"], ["const", draw(st.integers(0, 3))]], B1]
+            def cond():
+                return ["bin", draw(st.sampled_from([">", "==", "!="])), ["this", [draw(st.sampled_from(ints))], "attr"], ["const", draw(st.integers(0, 3))]]
+            # the guarded member: a plain field, or another conditional (both conditions must hold), possibly behind a wrapper
+            sub = draw(st.sampled_from(["plain", "plain", "wide"] if not allow_known else ["nested", "nested-default", "plain"]))
+            if sub == "plain":
+                return ["if", cond(), B1]
+            if sub == "wide":
+                return ["if", cond(), draw(st.sampled_from([["int", 2, False, "b", "alias"], ["bytes", 2], ["array", 2, B1]]))]
+            inner = ["if", cond(), draw(st.sampled_from([B1, ["int", 2, False, "b", "alias"]]))]
+            return ["if", cond(), inner if sub == "nested" else ["default", inner, 7]]
         if o == "ite":
             return ["ite", ["bin", draw(st.sampled_from([">", "=="])), ["this", [draw(st.sampled_from(ints))], "attr"], ["const", draw(st.integers(0, 3))]], B1, ["int", 2, False, "b", "alias"]]
         if o == "bitstruct":
@@ -428,7 +460,12 @@ def exportable(draw, depth=2, tail=True, allow_known=False):
         if o == "nullterm":
             return ["nullterm", ["gbytes"], b"\x00", False, True, True]
         if o == "pointer":
-            return ["pointer", draw(st.integers(0, 2)), B1]
+            if allow_known and ints:
+                return ["pointer", ["this", [draw(st.sampled_from(ints))], "attr"], B1]
+            if draw(st.integers(0, 2)) == 0:
+                # a pointer whose target holds another pointer (header -> directory entry -> payload)
+                return ["pointer", draw(st.integers(0, 2)), ["struct", [[fresh(), B1], [fresh(), ["pointer", draw(st.integers(0, 3)), draw(st.sampled_from([B1, ["int", 2, False, "b", "alias"]]))]]]]]
+            return ["pointer", draw(st.integers(0, 2)), draw(st.sampled_from([B1, ["int", 2, False, "b", "alias"]]))]
         raise AssertionError(o)
 
     def struct(d, tail_here):
